@@ -10,7 +10,8 @@ RULE = ("each case runs propka.run.single with a random -g grid and -w window, t
         "printed lines; (iii) the pH values of both profiles and of the charge table against the "
         "inclusive arithmetic grid (also a contract on every make_grid call); (iv) the printed folding "
         "rows against the window. Non-trivial: >= 2 titratable groups with shifted pKa and a grid whose "
-        "maximum lies on the grid; distinct = distinct (structure digest, grid, window).")
+        "maximum lies on the grid; distinct = distinct (structure digest, grid, window)."
+        " 30 % of the cut-outs carry 1-3 ligands / nucleotides (custom model pKa values enter the unfolded charge and the folding energy alike).")
 ASSUMPTIONS = ["linkage tolerance 2e-5*(1+N/10) for h=1e-3; Simpson tolerance 1e-4*(1+N/10)",
                "window rows: multiples of the window step counted from 0; windows are generated with "
                "end points on multiples of the step",
